@@ -15,7 +15,7 @@ import (
 
 func TestMain(m *testing.M) {
 	harness.Property("C05",
-		"library Session (generated role, callsign, locator, user agent, auxiliary addresses, secure-login password, message queue, answer policy, gzip on/off) talks over a segmented duplex stream to the harness's own strict B2F peer (internal/ref/b2f), which validates every byte the Session writes and itself uses a generated choice vector: data block sizes 1..256, every documented answer form in either case incl. zero-offset accepts, comment and ;PM lines before/between/after proposals and before FS, MOTD text, SID feature strings containing B2 anywhere, ;FW lists with |hash, CMS-style early FQ, duplicate MIDs inside a block, G flag. Non-trivial = at least one message transferred and at least one non-default encoding choice; distinct by hash of the case.",
+		"library Session (generated role, callsign, locator, user agent, auxiliary addresses, secure-login password, message queue, answer policy, gzip on/off) talks over a segmented duplex stream to the harness's own strict B2F peer (internal/ref/b2f), which validates every byte the Session writes and itself uses a generated choice vector: data block sizes 1..256, every documented answer form in either case incl. zero-offset accepts, comment and ;PM lines before/between/after proposals and before FS, MOTD text, SID feature strings containing B2 anywhere, ;FW lists with |hash, CMS-style early FQ (after an all-refused block or right behind the last frame; in half of those cases the peer also hangs up at once, so that what the Session writes afterwards fails like on net.Pipe), duplicate MIDs inside a block, G flag. Non-trivial = at least one message transferred and at least one non-default encoding choice; distinct by hash of the case.",
 		"reference peer written from docs/F6FBB-B2F and the Winlink B2F description; lines end in CR only",
 		"answer 'H'/'h' is excluded from the conforming generator (known finding: FBB defines H as 'accepted but will be held' = transfer it, the library defers; pinned by the repository's TestParseProposalAnswer)",
 		"answer 'E' (error in the line) has no prescribed sender reaction and is not generated",
@@ -31,6 +31,9 @@ func account(c Case, oc Outcome) {
 		if k != "answer:+" {
 			nondefault += v
 		}
+	}
+	if c.Peer.HangUp && oc.Choices["early-FQ"] > 0 {
+		harness.Label("choice:early-FQ-then-hang-up(library writes fail)")
 	}
 	if len(c.Peer.BlockSizes) != 1 || c.Peer.BlockSizes[0] != 250 {
 		nondefault++
